@@ -16,6 +16,8 @@ Section NodeInd.
     (HInclude : forall b, Q b -> P (Include b)) (HIncludeArr : forall n b, Q b -> P (IncludeArr n b))
     (HRender : forall b, Q b -> P (Render b)) (HRenderFor : forall n b, Q b -> P (RenderFor n b))
     (HCall : forall b, Q b -> P (Call b))
+    (HBlock : forall b, Q b -> P (Block b)) (HBlockD : forall b, Q b -> P (BlockD b))
+    (HSuper : forall b, Q b -> P (Super b)) (HSuperU : P SuperU)
     (HNil : Q []) (HCons : forall x r, P x -> Q r -> Q (x :: r)).
 
   Fixpoint node_ind' (nd : node) : P nd :=
@@ -28,6 +30,8 @@ Section NodeInd.
     | Include b => HInclude b (go b) | IncludeArr n b => HIncludeArr n b (go b)
     | Render b => HRender b (go b) | RenderFor n b => HRenderFor n b (go b)
     | Call b => HCall b (go b)
+    | Block b => HBlock b (go b) | BlockD b => HBlockD b (go b)
+    | Super b => HSuper b (go b) | SuperU => HSuperU
     end.
 
   Fixpoint list_node_ind' (l : list node) : Q l :=
@@ -39,10 +43,10 @@ Lemma exec_eq v md lim nd f :
   exec v md lim nd f =
   match nd with
   | Text t => seq (m_leaf (f_tp f)) (m_write lim t)
-  | Echo x => fun s => m_write lim (lget x (s_locals s)) s
-  | Assign x t => m_assign v lim f x t
-  | Capture x body => in_child (block v md lim body f) (fun val => m_assign v lim f x val)
-  | IfChanged body => in_child (block v md lim body f) (m_ifchanged lim)
+  | Echo x => fun s => m_write lim (lookup x s) s
+  | Assign x t => m_assign v lim x t
+  | Capture x body => fun s => in_child (block v md lim body (f_freeze f (s_buf s))) (fun val => m_assign v lim x val) s
+  | IfChanged body => fun s => in_child (block v md lim body (f_freeze f (s_buf s))) (m_ifchanged lim) s
   | For n body =>
       if (n =? 0)%N then ret
       else seq (guard (loop_exceeded v lim f n) XLoop)
@@ -68,18 +72,34 @@ Lemma exec_eq v md lim nd f :
   | Render body =>
       seq (nest_guard md lim body)
      (seq (guard (copy_exceeded lim f) XDepth)
-          (fun s => in_ctx (partial v md lim body (f_copy f (sum_sizes (s_locals s)))) s))
+          (in_ctx (partial v md lim body (f_copy f))))
   | RenderFor n body =>
       seq (nest_guard md lim body)
      (seq (guard (copy_exceeded lim f) XDepth)
-          (fun s => let fc := f_copy f (sum_sizes (s_locals s)) in
-                    seq (guard (loop_exceeded v lim fc n) XLoop)
-                        (if v_item v
-                         then iter 1 (N.to_nat n) (fun _ => in_ctx (partial v md lim body (f_scale v fc n)))
-                         else in_ctx (iter 1 (N.to_nat n) (fun _ => partial v md lim body (f_scale v fc n)))) s))
+     (seq (guard (loop_exceeded v lim (f_copy f) n) XLoop)
+          (if v_item v
+           then iter 1 (N.to_nat n) (fun _ => in_ctx (partial v md lim body (f_scale v (f_copy f) n)))
+           else in_ctx (iter 1 (N.to_nat n) (fun _ => partial v md lim body (f_scale v (f_copy f) n))))))
   | Call body =>
       seq (guard (copy_exceeded lim f) XDepth)
-          (fun s => in_ctx (block v md lim body (f_copy f (sum_sizes (s_locals s)))) s)
+          (in_ctx (block v md lim body (f_call f)))
+  | Block body =>
+      seq (guard (f_no_block f) XDisabled)
+     (seq (guard (copy_exceeded lim f) XDepth)
+          (in_blk (block v md lim body (f_blk f))))
+  | BlockD body =>
+      seq (guard (f_no_block f) XDisabled)
+     (seq (guard (depth_exceeded lim f) XDepth)
+          (block v md lim body (f_sup_set (f_ext f) SupNone)))
+  | Super body =>
+      match f_sup f with
+      | SupNone => ret
+      | SupHere =>
+          in_sup lim f (seq (guard (depth_exceeded lim f) XDepth) (block v md lim body (f_sup_set (f_ext f) SupHere)))
+      | SupBase b =>
+          in_sup lim f (in_base v (seq (guard (depth_exceeded lim (f_base v b f)) XDepth) (block v md lim body (f_ext (f_base v b f)))))
+      end
+  | SuperU => ret
   end.
 Proof. destruct nd; reflexivity. Qed.
 
@@ -97,20 +117,43 @@ Proof. unfold seq. destruct (a s) as [s1|e s1|]; try discriminate. eauto. Qed.
 Lemma guard_ok b e s s' : guard b e s = LOk s' -> b = false /\ s' = s.
 Proof. unfold guard. destruct b; intro H; inversion H; auto. Qed.
 
+Lemma nestd_guard_ok md d s s' : nestd_guard md d s = LOk s' -> d = false /\ s' = s.
+Proof. unfold nestd_guard. destruct d; [destruct (tolerant md); discriminate|]. intro H; inversion H; auto. Qed.
+
 Lemma nest_guard_ok md lim body s s' : nest_guard md lim body s = LOk s' -> nest_exceeded lim body = false /\ s' = s.
-Proof. unfold nest_guard. destruct (nest_exceeded lim body); [destruct (tolerant md); discriminate|]. intro H; inversion H; auto. Qed.
+Proof. unfold nest_guard. apply nestd_guard_ok. Qed.
 
 Lemma in_null_ok (m : M) s s' : in_null m s = LOk s' -> exists s1, m (set_buf s BNull) = LOk s1 /\ s' = set_buf s1 (s_buf s).
 Proof. unfold in_null. destruct (m _) as [s1|e s1|]; intro H; inversion H. eauto. Qed.
 
+Lemma in_childb_ok cb (m : M) k s s' :
+  in_childb cb m k s = LOk s' ->
+  exists s1, m (set_buf s cb) = LOk s1 /\ k (buf_text (s_buf s1)) (set_buf s1 (s_buf s)) = LOk s'.
+Proof. unfold in_childb. destruct (m _) as [s1|e s1|]; intro H; try discriminate. eauto. Qed.
+
 Lemma in_child_ok (m : M) k s s' :
   in_child m k s = LOk s' ->
   exists s1, m (set_buf s (child_of (s_buf s))) = LOk s1 /\ k (buf_text (s_buf s1)) (set_buf s1 (s_buf s)) = LOk s'.
-Proof. unfold in_child. destruct (m _) as [s1|e s1|]; intro H; try discriminate. eauto. Qed.
+Proof. unfold in_child. apply in_childb_ok. Qed.
 
 Lemma in_ctx_ok (m : M) s s' :
-  in_ctx m s = LOk s' -> exists s1, m (set_mut s [] []) = LOk s1 /\ s' = set_mut s1 (s_locals s) (s_ifch s).
+  in_ctx m s = LOk s' -> exists s1, m (set_cx s (cx_copy (s_cx s))) = LOk s1 /\ s' = set_cx s1 (s_cx s).
 Proof. unfold in_ctx. destruct (m _) as [s1|e s1|]; intro H; inversion H. eauto. Qed.
+
+Lemma in_blk_ok (m : M) s s' :
+  in_blk m s = LOk s' -> exists s1, m (set_cx s (cx_blk (s_cx s))) = LOk s1 /\ leave_blk s1 = Some s'.
+Proof.
+  unfold in_blk. destruct (m _) as [s1|e s1|]; try discriminate.
+  destruct (leave_blk s1) eqn:El; intro H; inversion H. subst. eauto.
+Qed.
+
+Lemma in_base_ok v (m : M) s s' :
+  in_base v m s = LOk s' ->
+  exists cb s1, cx_base v (s_cx s) = Some cb /\ m (set_cx s cb) = LOk s1 /\ s' = set_cx s1 (cx_back v (s_cx s) (s_cx s1)).
+Proof.
+  unfold in_base. destruct (cx_base v (s_cx s)) as [cb|]; try discriminate.
+  destruct (m _) as [s1|e s1|] eqn:Em; intro H; inversion H. exists cb, s1. auto.
+Qed.
 
 Lemma iter_first (body : Z -> M) n k s s' :
   iter k (S n) body s = LOk s' -> exists s1, body k s = LOk s1.
@@ -119,6 +162,9 @@ Proof. simpl. intro H. apply seq_ok in H. destruct H as (s1 & H1 & _). eauto. Qe
 (* in STRICT mode the per-node handler is the identity *)
 Lemma handle_strict (m : M) s : handle Strict m s = m s.
 Proof. unfold handle. destruct (m s); reflexivity. Qed.
+
+Lemma handle_out_strict (m : M) s : handle_out Strict m s = m s.
+Proof. unfold handle_out. destruct (m s); reflexivity. Qed.
 
 Lemma run_nodes_strict v lim l f s : run_nodes v Strict lim l f s = exec_list v Strict lim l f s.
 Proof.
@@ -141,18 +187,32 @@ Section Preserve.
   Definition H (m : M) : Prop := forall s, P s -> post (m s).
 
   Hypothesis I_ext : forall f, I f -> I (f_ext f).
-  Hypothesis I_for : forall f n, I f -> loop_exceeded v lim f n = false -> I (f_for f n).
-  Hypothesis I_scale : forall f n, I f -> loop_exceeded v lim f n = false -> I (f_scale v f n).
-  Hypothesis I_copy : forall f z, I f -> I (f_copy f z).
+  Hypothesis I_for : forall f n, I f -> (n =? 0)%N = false -> loop_exceeded v lim f n = false -> I (f_for f n).
+  Hypothesis I_scale : forall f n, I f -> (n =? 0)%N = false -> loop_exceeded v lim f n = false -> I (f_scale v f n).
+  Hypothesis I_copy : forall f, I f -> I (f_copy f).
+  Hypothesis I_call : forall f, I f -> I (f_call f).
+  Hypothesis I_blk : forall f, I f -> I (f_blk f).
+  Hypothesis I_sup_set : forall f u, I f -> u = SupNone \/ u = SupHere -> I (f_sup_set f u).
+  Hypothesis I_base : forall f b, I f -> f_sup f = SupBase b -> I (f_base v b f).
+  Hypothesis I_freeze : forall f s, I f -> P s -> I (f_freeze f (s_buf s)).
   Hypothesis H_leaf : forall f, I f -> H (m_leaf (f_tp f)).
   Hypothesis H_write : forall t, H (m_write lim t).
-  Hypothesis H_assign : forall f x val, I f -> H (m_assign v lim f x val).
+  Hypothesis H_assign : forall x val, H (m_assign v lim x val).
   Hypothesis P_null : forall s, P s -> P (set_buf s BNull).
   Hypothesis P_child : forall s, P s -> P (set_buf s (child_of (s_buf s))).
+  Hypothesis P_sup : forall f s, I f -> P s -> P (set_buf s (sup_buf f s)).
   Hypothesis P_restore : forall s s1, P s -> P s1 -> P (set_buf s1 (s_buf s)).
   Hypothesis E_restore : forall s s1, P s -> E s1 -> E (set_buf s1 (s_buf s)).
-  Hypothesis P_mut : forall s l i, P s -> P (set_mut s l i).
-  Hypothesis E_mut : forall s l i, E s -> E (set_mut s l i).
+  Hypothesis P_ifch : forall s i, P s -> P (set_cx s (cx_ifch (s_cx s) i)).
+  Hypothesis P_copy_in : forall s, P s -> P (set_cx s (cx_copy (s_cx s))).
+  Hypothesis P_copy_out : forall s s1, P s -> P s1 -> P (set_cx s1 (s_cx s)).
+  Hypothesis E_copy_out : forall s s1, P s -> E s1 -> E (set_cx s1 (s_cx s)).
+  Hypothesis P_blk_in : forall s, P s -> P (set_cx s (cx_blk (s_cx s))).
+  Hypothesis P_blk_out : forall s1 s2, P s1 -> leave_blk s1 = Some s2 -> P s2.
+  Hypothesis E_blk_out : forall s1 s2, E s1 -> leave_blk s1 = Some s2 -> E s2.
+  Hypothesis P_base_in : forall s cb, P s -> cx_base v (s_cx s) = Some cb -> P (set_cx s cb).
+  Hypothesis P_base_out : forall s cb s1, P s -> cx_base v (s_cx s) = Some cb -> P s1 -> P (set_cx s1 (cx_back v (s_cx s) (s_cx s1))).
+  Hypothesis E_base_out : forall s cb s1, P s -> cx_base v (s_cx s) = Some cb -> E s1 -> E (set_cx s1 (cx_back v (s_cx s) (s_cx s1))).
   Hypothesis P_E : forall s, P s -> E s.
   Hypothesis E_P : tolerant md = true -> forall s, E s -> P s.
 
@@ -165,8 +225,11 @@ Section Preserve.
   Lemma H_guard g e : H (guard g e).
   Proof. intros s HP. unfold guard. destruct g; simpl; auto. Qed.
 
+  Lemma H_nestd_guard d : H (nestd_guard md d).
+  Proof. intros s HP. unfold nestd_guard. destruct d; [destruct (tolerant md)|]; simpl; auto. Qed.
+
   Lemma H_nest_guard body : H (nest_guard md lim body).
-  Proof. intros s HP. unfold nest_guard. destruct (nest_exceeded lim body); [destruct (tolerant md)|]; simpl; auto. Qed.
+  Proof. apply H_nestd_guard. Qed.
 
   Lemma H_iter body : (forall k, H (body k)) -> forall n k, H (iter k n body).
   Proof. intros Hb. induction n as [|n IH]; intro k; simpl; [apply H_ret|]. apply H_seq; auto. Qed.
@@ -177,16 +240,38 @@ Section Preserve.
     destruct (m _) as [s1|e s1|]; simpl in *; auto.
   Qed.
 
-  Lemma H_in_child m k : H m -> (forall val, H (k val)) -> H (in_child m k).
+  (* at one state: the new buffer may depend on it *)
+  Lemma H_in_childb_at cb m k s : P s -> P (set_buf s cb) -> H m -> (forall val, H (k val)) -> post (in_childb cb m k s).
   Proof.
-    intros Hm Hk s HP. unfold in_child. specialize (Hm (set_buf s (child_of (s_buf s))) (P_child s HP)).
+    intros HP HPc Hm Hk. unfold in_childb. specialize (Hm (set_buf s cb) HPc).
     destruct (m _) as [s1|e s1|]; simpl in *; auto. apply Hk. auto.
   Qed.
 
+  Lemma H_in_child m k : H m -> (forall val, H (k val)) -> H (in_child m k).
+  Proof. intros Hm Hk s HP. unfold in_child. apply H_in_childb_at; auto. Qed.
+
+  Lemma H_in_sup f m : I f -> H m -> H (in_sup lim f m).
+  Proof. intros HI Hm s HP. unfold in_sup. apply H_in_childb_at; auto. Qed.
+
   Lemma H_in_ctx m : H m -> H (in_ctx m).
   Proof.
-    intros Hm s HP. unfold in_ctx. specialize (Hm (set_mut s [] []) (P_mut s [] [] HP)).
+    intros Hm s HP. unfold in_ctx. specialize (Hm _ (P_copy_in s HP)).
     destruct (m _) as [s1|e s1|]; simpl in *; auto.
+  Qed.
+
+  Lemma H_in_blk m : H m -> H (in_blk m).
+  Proof.
+    intros Hm s HP. unfold in_blk. specialize (Hm _ (P_blk_in s HP)).
+    destruct (m _) as [s1|e s1|]; simpl in *; auto.
+    - destruct (leave_blk s1) eqn:El; simpl; eauto.
+    - destruct (leave_blk s1) eqn:El; simpl; eauto.
+  Qed.
+
+  Lemma H_in_base m : H m -> H (in_base v m).
+  Proof.
+    intros Hm s HP. unfold in_base. destruct (cx_base v (s_cx s)) as [cb|] eqn:Eb; [|exact Logic.I].
+    specialize (Hm _ (P_base_in s cb HP Eb)).
+    destruct (m _) as [s1|e s1|]; simpl in *; eauto.
   Qed.
 
   Lemma H_handle m : H m -> H (handle md m).
@@ -195,19 +280,29 @@ Section Preserve.
     destruct (tolerant md) eqn:T; simpl; auto.
   Qed.
 
-  Lemma H_fun (F : st -> M) : (forall s0, H (F s0)) -> H (fun s => F s s).
-  Proof. intros HF s HP. apply (HF s s HP). Qed.
+  Lemma H_handle_out m : H m -> H (handle_out md m).
+  Proof.
+    intros Hm s HP. unfold handle_out. specialize (Hm s HP). destruct (m s) as [s1|e s1|]; simpl in *; auto.
+    destruct (tolerant md) eqn:T; simpl; auto.
+  Qed.
+
+  Lemma H_fun (F : st -> M) : (forall s0, P s0 -> H (F s0)) -> H (fun s => F s s).
+  Proof. intros HF s HP. apply (HF s HP s HP). Qed.
 
   Lemma H_ifchanged val : H (m_ifchanged lim val).
   Proof.
     intros s HP. unfold m_ifchanged. destruct (str_eqb val (s_ifch s)); [exact HP|].
-    apply H_write. apply P_mut; exact HP.
+    apply H_write. apply P_ifch; exact HP.
   Qed.
 
   Definition keeps (m : frame -> M) : Prop := forall f, I f -> H (m f).
 
   Lemma keeps_block body : keeps (exec_list v md lim body) -> keeps (block v md lim body).
-  Proof. intros Hl f HI. unfold block. destruct (blank_list body); [apply H_in_null|]; apply Hl; exact HI. Qed.
+  Proof.
+    intros Hl f HI. unfold block. destruct (blank_list body); [|apply Hl; exact HI].
+    apply (H_fun (fun s0 => in_null (exec_list v md lim body (f_freeze f (s_buf s0))))).
+    intros s0 HP0. apply H_in_null. apply Hl. apply I_freeze; assumption.
+  Qed.
 
   Lemma keeps_run_nodes body : (forall x, In x body -> keeps (exec v md lim x)) -> keeps (run_nodes v md lim body).
   Proof.
@@ -223,22 +318,28 @@ Section Preserve.
   (* the list part of the induction carries both readings of a list: as a block and as a template *)
   Definition keepsQ (l : list node) : Prop := keeps (exec_list v md lim l) /\ keeps (run_nodes v md lim l).
 
+  Lemma iter_zero n (body : Z -> M) : (n =? 0)%N = true -> iter 1 (N.to_nat n) body = ret.
+  Proof. intro Hn. assert (n = 0%N) by lia. subst n. reflexivity. Qed.
+
   Theorem exec_keeps : forall nd, keeps (exec v md lim nd).
   Proof.
     apply (node_ind' (fun nd => keeps (exec v md lim nd)) keepsQ); unfold keeps.
     - (* Text *) intros t f HI. rewrite exec_eq. apply H_seq; [apply H_leaf; exact HI|apply H_write].
-    - (* Echo *) intros x f HI. rewrite exec_eq. apply (H_fun (fun s0 => m_write lim (lget x (s_locals s0)))). intro s0. apply H_write.
-    - (* Assign *) intros x t f HI. rewrite exec_eq. apply H_assign; exact HI.
+    - (* Echo *) intros x f HI. rewrite exec_eq. apply (H_fun (fun s0 => m_write lim (lookup x s0))). intros s0 _. apply H_write.
+    - (* Assign *) intros x t f HI. rewrite exec_eq. apply H_assign.
     - (* Capture *) intros x b [IH _] f HI. rewrite exec_eq.
-      apply H_in_child; [apply (keeps_block b IH); exact HI|]. intro val. apply H_assign; exact HI.
+      apply (H_fun (fun s0 => in_child (block v md lim b (f_freeze f (s_buf s0))) (fun val => m_assign v lim x val))).
+      intros s0 HP0. apply H_in_child; [apply (keeps_block b IH); apply I_freeze; assumption|]. intro val. apply H_assign.
     - (* IfChanged *) intros b [IH _] f HI. rewrite exec_eq.
-      apply H_in_child; [apply (keeps_block b IH); exact HI|]. intro val. apply H_ifchanged.
-    - (* For *) intros n b [IH _] f HI. rewrite exec_eq. destruct (n =? 0)%N; [apply H_ret|].
+      apply (H_fun (fun s0 => in_child (block v md lim b (f_freeze f (s_buf s0))) (m_ifchanged lim))).
+      intros s0 HP0. apply H_in_child; [apply (keeps_block b IH); apply I_freeze; assumption|]. intro val. apply H_ifchanged.
+    - (* For *) intros n b [IH _] f HI. rewrite exec_eq. destruct (n =? 0)%N eqn:En; [apply H_ret|].
       intros s HP. unfold seq at 1. unfold guard at 1. destruct (loop_exceeded v lim f n) eqn:G; [simpl; auto|].
       revert s HP. apply H_seq; [apply H_guard|]. apply H_iter. intro k. apply (keeps_block b IH). apply I_for; auto.
     - (* Tablerow *) intros n b [IH _] f HI. rewrite exec_eq.
       intros s HP. unfold seq at 1. unfold guard at 1. destruct (loop_exceeded v lim f n) eqn:G; [simpl; auto|].
       revert s HP. apply H_seq; [apply H_write|]. apply H_seq; [apply H_guard|]. apply H_seq; [|apply H_write].
+      destruct (n =? 0)%N eqn:En; [rewrite (iter_zero n _ En); apply H_ret|].
       apply H_iter. intro k. apply H_seq; [apply H_write|]. apply H_seq; [|apply H_write].
       apply (keeps_block b IH). apply I_scale; auto.
     - (* Include *) intros b [_ IH] f HI. rewrite exec_eq.
@@ -247,28 +348,32 @@ Section Preserve.
     - (* IncludeArr *) intros n b [_ IH] f HI. rewrite exec_eq.
       apply H_seq; [apply H_guard|]. apply H_seq; [apply H_nest_guard|]. apply H_seq; [apply H_guard|].
       intros s HP. unfold seq at 1. unfold guard at 1. destruct (loop_exceeded v lim (f_ext f) n) eqn:G; [simpl; auto|].
-      revert s HP. apply H_iter. intro k. apply (keeps_partial b IH). apply I_scale; auto.
+      revert s HP. destruct (n =? 0)%N eqn:En; [rewrite (iter_zero n _ En); apply H_ret|].
+      apply H_iter. intro k. apply (keeps_partial b IH). apply I_scale; auto.
     - (* Render *) intros b [_ IH] f HI. rewrite exec_eq.
       apply H_seq; [apply H_nest_guard|]. apply H_seq; [apply H_guard|].
-      apply (H_fun (fun s0 => in_ctx (partial v md lim b (f_copy f (sum_sizes (s_locals s0)))))).
-      intro s0. apply H_in_ctx. apply (keeps_partial b IH). auto.
+      apply H_in_ctx. apply (keeps_partial b IH). auto.
     - (* RenderFor *) intros n b [_ IH] f HI. rewrite exec_eq.
-      apply H_seq; [apply H_nest_guard|]. apply H_seq; [apply H_guard|]. cbv zeta.
-      apply (H_fun (fun s0 => seq (guard (loop_exceeded v lim (f_copy f (sum_sizes (s_locals s0))) n) XLoop)
-                (if v_item v
-                 then iter 1 (N.to_nat n) (fun _ => in_ctx (partial v md lim b (f_scale v (f_copy f (sum_sizes (s_locals s0))) n)))
-                 else in_ctx (iter 1 (N.to_nat n) (fun _ => partial v md lim b (f_scale v (f_copy f (sum_sizes (s_locals s0))) n)))))).
-      intro s0. set (fc := f_copy f (sum_sizes (s_locals s0))).
-      intros s HP. unfold seq at 1. unfold guard at 1. destruct (loop_exceeded v lim fc n) eqn:G; [simpl; auto|].
-      assert (Hp : H (partial v md lim b (f_scale v fc n))).
-      { apply (keeps_partial b IH). apply I_scale; [apply I_copy; exact HI|exact G]. }
-      revert s HP. destruct (v_item v).
+      apply H_seq; [apply H_nest_guard|]. apply H_seq; [apply H_guard|].
+      intros s HP. unfold seq at 1. unfold guard at 1. destruct (loop_exceeded v lim (f_copy f) n) eqn:G; [simpl; auto|].
+      revert s HP. destruct (n =? 0)%N eqn:En.
+      { rewrite !(iter_zero n _ En). destruct (v_item v); [apply H_ret|apply H_in_ctx; apply H_ret]. }
+      assert (Hp : H (partial v md lim b (f_scale v (f_copy f) n))).
+      { apply (keeps_partial b IH). apply I_scale; auto. }
+      destruct (v_item v).
       + apply H_iter. intro k. apply H_in_ctx. exact Hp.
       + apply H_in_ctx. apply H_iter. intro k. exact Hp.
     - (* Call *) intros b [IH _] f HI. rewrite exec_eq.
-      apply H_seq; [apply H_guard|].
-      apply (H_fun (fun s0 => in_ctx (block v md lim b (f_copy f (sum_sizes (s_locals s0)))))).
-      intro s0. apply H_in_ctx. apply (keeps_block b IH). auto.
+      apply H_seq; [apply H_guard|]. apply H_in_ctx. apply (keeps_block b IH). auto.
+    - (* Block *) intros b [IH _] f HI. rewrite exec_eq.
+      apply H_seq; [apply H_guard|]. apply H_seq; [apply H_guard|]. apply H_in_blk. apply (keeps_block b IH). auto.
+    - (* BlockD *) intros b [IH _] f HI. rewrite exec_eq.
+      apply H_seq; [apply H_guard|]. apply H_seq; [apply H_guard|]. apply (keeps_block b IH). auto.
+    - (* Super *) intros b [IH _] f HI. rewrite exec_eq. destruct (f_sup f) as [| |bf] eqn:Es.
+      + apply H_ret.
+      + apply H_in_sup; [exact HI|]. apply H_seq; [apply H_guard|]. apply (keeps_block b IH). auto.
+      + apply H_in_sup; [exact HI|]. apply H_in_base. apply H_seq; [apply H_guard|]. apply (keeps_block b IH). auto.
+    - (* SuperU *) intros f HI. rewrite exec_eq. apply H_ret.
     - (* nil *) split; intros f HI; apply H_ret.
     - (* cons *) intros x r IHx [IHr1 IHr2]. split; intros f HI.
       + rewrite exec_list_cons. apply H_seq; [apply IHx|apply IHr1]; exact HI.
@@ -282,11 +387,16 @@ Section Preserve.
   Proof. intro l. apply keeps_partial, run_nodes_keeps. Qed.
 
   (* the whole render: whatever it returns - a result, or an error with the state it was raised in *)
-  Corollary run_post main sizes : I frame0 -> P (st0 sizes) -> post (run_prog v md lim main sizes).
+  Corollary run_post chain main glob sizes : I frame0 -> P (st0 glob sizes) -> post (run_prog v md lim chain main glob sizes).
   Proof.
-    intros HI HP. unfold run_prog. pose proof (H_nest_guard main (st0 sizes) HP) as Hg.
-    destruct (nest_guard md lim main (st0 sizes)) as [s1|e s1|]; simpl in *; auto.
-    apply (partial_keeps main frame0 HI s1 Hg).
+    intros HI HP. unfold run_prog. destruct chain as [|d0 loaded].
+    - pose proof (H_nest_guard main (st0 glob sizes) HP) as Hg.
+      destruct (nest_guard md lim main (st0 glob sizes)) as [s1|e s1|]; simpl in *; auto.
+      apply (partial_keeps main frame0 HI s1 Hg).
+    - pose proof (H_nestd_guard (d0 >? l_nest lim) (st0 glob sizes) HP) as Hg.
+      destruct (nestd_guard md (d0 >? l_nest lim) (st0 glob sizes)) as [s1|e s1|]; simpl in *; auto.
+      revert s1 Hg. apply H_seq; [apply H_guard|]. apply H_handle_out. apply H_seq; [apply H_nestd_guard|].
+      apply partial_keeps. apply I_ext; exact HI.
   Qed.
 End Preserve.
 
@@ -298,7 +408,8 @@ Proof.
 Qed.
 
 (* the repairs, whichever way render-for makes its contexts *)
-Definition is_repaired (v : variant) : Prop := v_carry v = true /\ v_zero v = true /\ v_rollback v = true.
+Definition is_repaired (v : variant) : Prop :=
+  v_carry v = true /\ v_zero v = true /\ v_rollback v = true /\ v_super_loop v = true /\ v_super_ns v = true.
 Lemma repaired_is_repaired : is_repaired repaired.
 Proof. repeat split; reflexivity. Qed.
 
@@ -327,14 +438,14 @@ Proof. rewrite rev_append_rev, utf8_bytes_app, utf8_bytes_rev. reflexivity. Qed.
 Lemma m_write_frame lim t s :
   match m_write lim t s with
   | LOk s' | LErr _ s' =>
-      s_leaf s' = s_leaf s /\ s_nslog s' = s_nslog s /\ s_locals s' = s_locals s /\ s_sizes s' = s_sizes s /\ s_ifch s' = s_ifch s
+      s_leaf s' = s_leaf s /\ s_nslog s' = s_nslog s /\ s_cx s' = s_cx s /\ s_sizes s' = s_sizes s /\ s_glob s' = s_glob s
   | LFuel => True
   end.
 Proof. unfold m_write. destruct (buf_write _ _ _) as [[|] b]; simpl; auto 6. Qed.
 
 (* an assignment, accepted or refused, leaves the buffer and the leaf log alone *)
-Lemma m_assign_frame v lim f x val s :
-  match m_assign v lim f x val s with
+Lemma m_assign_frame v lim x val s :
+  match m_assign v lim x val s with
   | LOk s' | LErr _ s' => s_buf s' = s_buf s /\ s_leaf s' = s_leaf s
   | LFuel => True
   end.
@@ -343,23 +454,24 @@ Proof.
   destruct (ns_limit v lim); [destruct (_ >? _); [destruct (v_rollback v)|]|]; simpl; auto.
 Qed.
 
-(* repaired: a refused assignment leaves the namespace exactly as it was *)
-Lemma m_assign_refused_keeps_locals v lim f x val s e s' :
-  v_rollback v = true -> m_assign v lim f x val s = LErr e s' -> s_locals s' = s_locals s /\ s_nslog s' = s_nslog s.
+(* repaired: a refused assignment leaves the namespace - and every other attribute of the context - exactly as it was *)
+Lemma m_assign_refused_keeps_locals v lim x val s e s' :
+  v_rollback v = true -> m_assign v lim x val s = LErr e s' -> s_cx s' = s_cx s /\ s_nslog s' = s_nslog s.
 Proof.
   intros Hr. unfold m_assign. destruct (s_sizes s); [discriminate|].
   destruct (ns_limit v lim); [destruct (_ >? _)|]; try discriminate. rewrite Hr. intro H; inversion H; subst; simpl; auto.
 Qed.
 
 (* ------------------------------------------------------------------ C06: the loop limit bounds the true product, in every mode *)
-Definition bk (f : frame) : N := fold_left N.mul (f_loops f) (f_carry f).
-
 Section LoopBound.
   Variables (v : variant) (md : mode) (lim : limits) (L : N).
   Hypothesis Hv : is_repaired v.
   Hypothesis HL : l_loop lim = Some L.
 
-  Definition linv (f : frame) : Prop := bk f = f_tp f /\ (f_tp f <= L)%N.
+  (* block.super from a block-scoped copy divides the copy's iterations by the base context's: exact *)
+  Definition sup_ok (f : frame) : Prop :=
+    match f_sup f with SupBase b => (1 <= bkb b)%N /\ exists k, bk f = (bkb b * k)%N | _ => True end.
+  Definition linv (f : frame) : Prop := bk f = f_tp f /\ (1 <= f_tp f <= L)%N /\ sup_ok f.
   Definition leafP (s : st) : Prop := Forall (fun p => (p <= L)%N) (s_leaf s).
 
   Lemma not_exceeded f n : loop_exceeded v lim f n = false -> (bk f * n <= L)%N.
@@ -368,40 +480,74 @@ Section LoopBound.
     replace (n * f_carry f)%N with (f_carry f * n)%N in H by lia. rewrite fold_mul_scale in H. unfold bk. lia.
   Qed.
 
-  Lemma linv_for f n : linv f -> loop_exceeded v lim f n = false -> linv (f_for f n).
+  Lemma bk_for f n : bk (f_for f n) = (bk f * n)%N.
+  Proof. unfold bk, f_for; cbn [f_loops f_carry fold_left]. apply fold_mul_scale. Qed.
+  Lemma bk_scale f n : bk (f_scale v f n) = (bk f * n)%N.
+  Proof. unfold bk, f_scale; cbn [f_loops f_carry]. destruct Hv as (Hc & _). rewrite Hc. apply fold_mul_scale. Qed.
+
+  Lemma linv_mul f f' n :
+    linv f -> (n =? 0)%N = false -> (bk f * n <= L)%N ->
+    bk f' = (bk f * n)%N -> f_tp f' = (f_tp f * n)%N -> f_sup f' = f_sup f -> linv f'.
   Proof.
-    intros [Hb Ht] He. apply not_exceeded in He. unfold linv, bk, f_for; simpl.
-    rewrite fold_mul_scale. fold (bk f). rewrite Hb in *. split; [reflexivity|lia].
+    intros (Hb & Ht & Hs) Hn He Hbk Htp Hsup. unfold linv, sup_ok in *. rewrite Hbk, Htp, Hsup, Hb in *.
+    split; [reflexivity|]. split; [nia|].
+    destruct (f_sup f) as [| |b]; auto. destruct Hs as (H1 & k & Hk). split; [exact H1|]. exists (k * n)%N. rewrite Hk. lia.
   Qed.
 
-  Lemma linv_scale f n : linv f -> loop_exceeded v lim f n = false -> linv (f_scale v f n).
-  Proof.
-    intros [Hb Ht] He. apply not_exceeded in He. unfold linv, bk, f_scale; simpl.
-    destruct Hv as (Hc & _). rewrite Hc. rewrite fold_mul_scale. fold (bk f). rewrite Hb in *. split; [reflexivity|lia].
-  Qed.
+  Lemma linv_for f n : linv f -> (n =? 0)%N = false -> loop_exceeded v lim f n = false -> linv (f_for f n).
+  Proof. intros HI Hn He. apply not_exceeded in He. apply (linv_mul f _ n HI Hn He (bk_for f n)); reflexivity. Qed.
+
+  Lemma linv_scale f n : linv f -> (n =? 0)%N = false -> loop_exceeded v lim f n = false -> linv (f_scale v f n).
+  Proof. intros HI Hn He. apply not_exceeded in He. apply (linv_mul f _ n HI Hn He (bk_scale f n)); reflexivity. Qed.
 
   Lemma linv_ext f : linv f -> linv (f_ext f).
-  Proof. intros [? ?]; split; auto. Qed.
-  Lemma linv_copy f z : linv f -> linv (f_copy f z).
-  Proof. intros [? ?]; split; auto. Qed.
+  Proof. intros (Hb & Ht & Hs). split; [exact Hb|split; [exact Ht|exact Hs]]. Qed.
+  Lemma linv_copy f : linv f -> linv (f_copy f).
+  Proof. intros (Hb & Ht & _). split; [exact Hb|split; [exact Ht|exact Logic.I]]. Qed.
+  Lemma linv_call f : linv f -> linv (f_call f).
+  Proof. intros (Hb & Ht & _). split; [exact Hb|split; [exact Ht|exact Logic.I]]. Qed.
+  Lemma linv_blk f : linv f -> linv (f_blk f).
+  Proof.
+    intros (Hb & Ht & _). unfold linv, sup_ok, f_blk. cbn [f_sup f_tp]. split; [exact Hb|]. split; [exact Ht|].
+    unfold bkb, bk in *. cbn [b_loops b_carry f_loops f_carry fold_left]. rewrite Hb. split; [lia|]. exists 1%N. lia.
+  Qed.
+  Lemma linv_sup_set f u : linv f -> u = SupNone \/ u = SupHere -> linv (f_sup_set f u).
+  Proof. intros (Hb & Ht & _) [->| ->]; (split; [exact Hb|split; [exact Ht|exact Logic.I]]). Qed.
+  Lemma linv_freeze f b : linv f -> linv (f_freeze f b).
+  Proof. intros (Hb & Ht & Hs). split; [exact Hb|split; [exact Ht|exact Hs]]. Qed.
+
+  (* the parent block runs in the base context under exactly the iterations of the overriding block *)
+  Lemma linv_base f b : linv f -> f_sup f = SupBase b -> linv (f_base v b f).
+  Proof.
+    intros (Hb & Ht & Hs) Es. unfold sup_ok in Hs. rewrite Es in Hs. destruct Hs as (H1 & k & Hk).
+    unfold linv, sup_ok, f_base, bk. cbn [f_loops f_carry f_tp f_sup]. split; [|split; [exact Ht|exact Logic.I]].
+    rewrite fold_mul_scale. fold (bkb b). unfold enclosing. destruct Hv as (_ & _ & _ & Hsl & _). rewrite Hsl.
+    rewrite <- Hb, Hk.
+    assert (Hk1 : (1 <= k)%N) by (destruct k; [rewrite N.mul_0_r in Hk; lia|lia]).
+    rewrite (N.max_r 1 (bkb b)) by lia. rewrite (N.max_r 1 (bkb b * k)) by nia.
+    rewrite (N.mul_comm (bkb b) k) at 1. rewrite N.div_mul by lia. rewrite N.max_r by lia. reflexivity.
+  Qed.
 
   (* whatever the render returns - its result, or the error that escaped with the state at that point - every leaf
      execution logged so far had a true product <= L; errors dropped on the way (WARN/LAX) included *)
-  Theorem run_leaf_bound main sizes :
+  Theorem run_leaf_bound chain main glob sizes :
     (1 <= L)%N ->
-    match run_prog v md lim main sizes with
+    match run_prog v md lim chain main glob sizes with
     | LOk s | LErr _ s => leafP s
     | LFuel => True
     end.
   Proof.
     intro H1.
-    apply (run_post v md lim linv leafP leafP); auto using linv_ext, linv_for, linv_scale, linv_copy.
-    - intros f [_ Ht] s HP. simpl. unfold leafP; simpl. constructor; auto.
+    apply (run_post v md lim linv leafP leafP);
+      auto using linv_ext, linv_for, linv_scale, linv_copy, linv_call, linv_blk, linv_sup_set, linv_base, linv_freeze.
+    - intros f (_ & Ht & _) s HP. simpl. unfold leafP; simpl. constructor; [lia|auto].
     - intros t s HP. pose proof (m_write_frame lim t s) as Fr. unfold leafP in *.
       destruct (m_write lim t s) as [s'|e s'|]; simpl; auto; destruct Fr as (-> & _); exact HP.
-    - intros f x val _ s HP. pose proof (m_assign_frame v lim f x val s) as Fr. unfold leafP in *.
-      destruct (m_assign v lim f x val s) as [s'|e s'|]; simpl; auto; destruct Fr as (_ & ->); exact HP.
-    - split; [reflexivity|exact H1].
+    - intros x val s HP. pose proof (m_assign_frame v lim x val s) as Fr. unfold leafP in *.
+      destruct (m_assign v lim x val s) as [s'|e s'|]; simpl; auto; destruct Fr as (_ & ->); exact HP.
+    - intros s1 s2 HP. unfold leave_blk. destruct (cx_unblk (s_cx s1)); intro Hq; inversion Hq; subst. exact HP.
+    - intros s1 s2 HP. unfold leave_blk. destruct (cx_unblk (s_cx s1)); intro Hq; inversion Hq; subst. exact HP.
+    - split; [reflexivity|]. split; [simpl; lia|exact Logic.I].
     - constructor.
   Qed.
 End LoopBound.
@@ -411,30 +557,55 @@ Section NsBound.
   Variables (v : variant) (md : mode) (lim : limits).
   Hypothesis Hv : is_repaired v.
 
-  Definition ninv (f : frame) : Prop := f_ns_carry f = f_anc f.
+  (* in every context, suspended ones included, the carry the engine holds IS the measured size of everything else
+     that is alive *)
+  Fixpoint chain_ok (l : list oent) : Prop :=
+    match l with [] => True | o :: r => o_nsc o = outer_total r + o_anc o /\ chain_ok r end.
+  Definition nsinv (c : cx) : Prop := x_nsc c = outer_total (x_outer c) + x_anc c /\ chain_ok (x_outer c).
   Definition ns_ok (p : Z * Z) : Prop := fst p = snd p /\ forall M, l_ns lim = Some M -> fst p <= M.
-  Definition nsP (s : st) : Prop := Forall ns_ok (s_nslog s).
+  Definition nsP (s : st) : Prop := Forall ns_ok (s_nslog s) /\ nsinv (s_cx s).
 
-  Theorem run_ns_bound main sizes :
-    match run_prog v md lim main sizes with
+  Lemma nsinv_live c : nsinv c -> cx_live c = cx_size c.
+  Proof. intros [Hn _]. unfold cx_live, cx_size. lia. Qed.
+
+  Theorem run_ns_bound chain main glob sizes :
+    match run_prog v md lim chain main glob sizes with
     | LOk s | LErr _ s => nsP s
     | LFuel => True
     end.
   Proof.
-    apply (run_post v md lim ninv nsP nsP); auto.
-    - intros f z H. unfold ninv in *; simpl. lia.
+    destruct Hv as (_ & _ & Hr & _ & Hsn).
+    apply (run_post v md lim (fun _ => True) nsP nsP); auto.
     - intros f _ s HP. exact HP.
     - intros t s HP. pose proof (m_write_frame lim t s) as Fr. unfold nsP in *.
-      destruct (m_write lim t s) as [s'|e s'|]; simpl; auto; destruct Fr as (_ & -> & _); exact HP.
-    - intros f x val HI s HP. unfold m_assign. destruct (s_sizes s) as [|z rest]; [exact Logic.I|].
-      rewrite (ns_limit_repaired v lim Hv). unfold ninv in HI. destruct Hv as (_ & _ & Hr). rewrite Hr.
+      destruct (m_write lim t s) as [s'|e s'|]; simpl; auto; destruct Fr as (_ & -> & -> & _); exact HP.
+    - intros x val s [HP HI]. unfold m_assign. destruct (s_sizes s) as [|z rest]; [exact Logic.I|].
+      rewrite (ns_limit_repaired v lim Hv). rewrite Hr.
+      set (c' := cx_locals (s_cx s) (lset x (val, z) (x_locals (s_cx s)))).
+      assert (HI' : nsinv c') by (destruct HI as [Ha Hb]; split; [exact Ha|exact Hb]).
+      pose proof (nsinv_live c' HI') as Hlive.
       destruct (l_ns lim) as [M|] eqn:EM.
-      + destruct (_ >? _) eqn:E0; simpl; [exact HP|]. unfold nsP; cbn [s_nslog]. constructor; [|exact HP].
-        split; cbn [fst snd]; [lia|]. intros M' HM'. rewrite EM in HM'. inversion HM'; subst. lia.
-      + simpl. unfold nsP; cbn [s_nslog]. constructor; [|exact HP].
-        split; cbn [fst snd]; [lia|]. intros M' HM'. rewrite EM in HM'. discriminate.
-    - reflexivity.
-    - constructor.
+      + destruct (_ >? _) eqn:E0; simpl; [split; [exact HP|exact HI]|]. split; [|exact HI']. cbn [s_nslog]. constructor; [|exact HP].
+        split; cbn [fst snd]; [exact Hlive|]. intros M' HM'. rewrite EM in HM'. inversion HM'; subst. lia.
+      + simpl. split; [|exact HI']. cbn [s_nslog]. constructor; [|exact HP].
+        split; cbn [fst snd]; [exact Hlive|]. intros M' HM'. rewrite EM in HM'. discriminate.
+    - (* isolated copy *) intros s [HP [Ha Hb]]. split; [exact HP|]. unfold nsinv, cx_copy, cx_size, cx_live; simpl. split; [lia|exact Logic.I].
+    - intros s s1 [HP HI] [HP1 HI1]. split; assumption.
+    - intros s s1 [HP HI] [HP1 HI1]. split; assumption.
+    - (* block-scoped copy *) intros s [HP [Ha Hb]]. split; [exact HP|]. unfold nsinv, cx_blk, cx_size; simpl. split; [lia|]. split; [exact Ha|exact Hb].
+    - intros s1 s2 [HP [Ha Hb]]. unfold leave_blk, cx_unblk. destruct (x_outer (s_cx s1)) as [|o rest] eqn:Eo; intro Hq; inversion Hq; subst.
+      split; [exact HP|]. simpl in Hb. destruct Hb as [Hb1 Hb2]. split; simpl; assumption.
+    - intros s1 s2 [HP [Ha Hb]]. unfold leave_blk, cx_unblk. destruct (x_outer (s_cx s1)) as [|o rest] eqn:Eo; intro Hq; inversion Hq; subst.
+      split; [exact HP|]. simpl in Hb. destruct Hb as [Hb1 Hb2]. split; simpl; assumption.
+    - (* block.super: the base context resumes *) intros s cb [HP [Ha Hb]]. unfold cx_base. destruct (x_outer (s_cx s)) as [|o rest] eqn:Eo; intro Hq; inversion Hq; subst.
+      split; [exact HP|]. simpl in Hb. destruct Hb as [Hb1 Hb2]. rewrite Hsn. split; simpl; [lia|exact Hb2].
+    - (* ... and is suspended again *) intros s cb s1 [HP [Ha Hb]] Hq [HP1 _]. split; [exact HP1|].
+      unfold cx_base in Hq. unfold cx_back. destruct (x_outer (s_cx s)) as [|o rest] eqn:Eo; [discriminate|].
+      simpl in Hb. destruct Hb as [Hb1 Hb2]. rewrite Hsn. split; simpl; [lia|]. split; [exact Hb1|exact Hb2].
+    - intros s cb s1 [HP [Ha Hb]] Hq [HP1 _]. split; [exact HP1|].
+      unfold cx_base in Hq. unfold cx_back. destruct (x_outer (s_cx s)) as [|o rest] eqn:Eo; [discriminate|].
+      simpl in Hb. destruct Hb as [Hb1 Hb2]. rewrite Hsn. split; simpl; [lia|]. split; [exact Hb1|exact Hb2].
+    - split; [constructor|]. split; simpl; [reflexivity|exact Logic.I].
   Qed.
 End NsBound.
 
@@ -452,6 +623,14 @@ Section OutBound.
         utf8_bytes rt <= size /\ 0 <= base /\ forall L, l_out lim = Some L -> utf8_bytes rt <= Z.max 0 (L - base)
     end.
   Definition bufP (s : st) : Prop := bufinv (s_buf s).
+  (* the size a block's buffer had when it was last seen *)
+  Definition bsz_ok (f : frame) : Prop := match f_bsz f with Some z => 0 <= z | None => True end.
+
+  Lemma bufinv_size b : bufinv b -> 0 <= cur_size b.
+  Proof. destruct b as [|base size rt]; simpl; [lia|]. intros (Hs & _). pose proof (utf8_bytes_nonneg rt). lia. Qed.
+
+  Lemma bufinv_fresh base : 0 <= base -> bufinv (BLim base 0 []).
+  Proof. intro Hb. simpl. repeat split; try lia. Qed.
 
   Lemma buf_write_inv b t : bufinv b -> bufinv (snd (buf_write (l_out lim) b t)).
   Proof.
@@ -465,30 +644,34 @@ Section OutBound.
     - cbn [snd bufinv]. rewrite utf8_bytes_rev_append. repeat split; try lia. intros L' HL'. rewrite EL in HL'. discriminate.
   Qed.
 
-  Theorem run_out_inv main sizes :
-    match run_prog v md lim main sizes with
+  Theorem run_out_inv chain main glob sizes :
+    match run_prog v md lim chain main glob sizes with
     | LOk s | LErr _ s => bufP s
     | LFuel => True
     end.
   Proof.
-    apply (run_post v md lim (fun _ => True) bufP bufP); auto.
+    apply (run_post v md lim bsz_ok bufP bufP); auto.
+    1-5: (intros; exact Logic.I).
+    - (* freeze *) intros f s HI HP. unfold bsz_ok, f_freeze in *. cbn [f_bsz]. destruct (f_bsz f); [exact HI|]. apply bufinv_size. exact HP.
     - intros f _ s HP. exact HP.
     - intros t s HP. unfold m_write. pose proof (buf_write_inv (s_buf s) t HP) as Hw.
       destruct (buf_write (l_out lim) (s_buf s) t) as [[|] b]; simpl in *; exact Hw.
-    - intros f x val _ s HP. pose proof (m_assign_frame v lim f x val s) as Fr. unfold bufP in *.
-      destruct (m_assign v lim f x val s) as [s'|e s'|]; simpl; auto; destruct Fr as (-> & _); exact HP.
+    - intros x val s HP. pose proof (m_assign_frame v lim x val s) as Fr. unfold bufP in *.
+      destruct (m_assign v lim x val s) as [s'|e s'|]; simpl; auto; destruct Fr as (-> & _); exact HP.
     - intros s HP. exact Logic.I.
-    - intros s HP. unfold bufP in *; simpl. destruct (s_buf s) as [|base size rt]; simpl.
-      + repeat split; try lia.
-      + destruct HP as (Hs & Hbase & Hl). pose proof (utf8_bytes_nonneg rt). repeat split; try lia.
+    - intros s HP. unfold bufP; simpl. apply bufinv_fresh. apply bufinv_size. exact HP.
+    - intros f s HI HP. unfold bufP, sup_buf; simpl. apply bufinv_fresh. unfold bsz_ok in HI. destruct (f_bsz f); [exact HI|]. apply bufinv_size. exact HP.
+    - intros s1 s2 HP. unfold leave_blk. destruct (cx_unblk (s_cx s1)); intro Hq; inversion Hq; subst. exact HP.
+    - intros s1 s2 HP. unfold leave_blk. destruct (cx_unblk (s_cx s1)); intro Hq; inversion Hq; subst. exact HP.
+    - exact Logic.I.
     - unfold bufP; simpl. repeat split; try lia.
   Qed.
 
   (* C07, first clause, for EVERY completed render whatever the mode *)
-  Theorem run_out_bound main sizes s L :
-    l_out lim = Some L -> 0 <= L -> run_prog v md lim main sizes = LOk s -> utf8_bytes (buf_text (s_buf s)) <= L.
+  Theorem run_out_bound chain main glob sizes s L :
+    l_out lim = Some L -> 0 <= L -> run_prog v md lim chain main glob sizes = LOk s -> utf8_bytes (buf_text (s_buf s)) <= L.
   Proof.
-    intros HL H0 Hr. pose proof (run_out_inv main sizes) as Hi. rewrite Hr in Hi.
+    intros HL H0 Hr. pose proof (run_out_inv chain main glob sizes) as Hi. rewrite Hr in Hi.
     unfold bufP in Hi. destruct (s_buf s) as [|base size rt]; simpl; [exact H0|].
     destruct Hi as (Hs & Hbase & Hl). rewrite utf8_bytes_rev. specialize (Hl L HL). lia.
   Qed.
@@ -505,13 +688,29 @@ Section OutStrict.
     | BLim base size rt => utf8_bytes rt = size /\ 0 <= base /\ forall L, l_out lim = Some L -> size <= L - base
     end.
   Definition bufP_strict (s : st) : Prop := bufinv_strict (s_buf s).
+  Definition bsz_strict (f : frame) : Prop :=
+    match f_bsz f with Some z => 0 <= z /\ forall L, l_out lim = Some L -> z <= L | None => True end.
 
-  Theorem run_out_inv_strict main sizes s : run_prog v Strict lim main sizes = LOk s -> bufP_strict s.
+  Lemma bufinv_strict_size b : bufinv_strict b -> 0 <= cur_size b /\ forall L, l_out lim = Some L -> cur_size b <= L.
+  Proof.
+    destruct b as [|base size rt]; simpl.
+    - intros _. split; [lia|]. intros L HL. apply (Hpos L HL).
+    - intros (Hs & Hb & Hl). pose proof (utf8_bytes_nonneg rt). split; [lia|]. intros L HL. specialize (Hl L HL). lia.
+  Qed.
+
+  Lemma bufinv_strict_fresh base : 0 <= base -> (forall L, l_out lim = Some L -> base <= L) -> bufinv_strict (BLim base 0 []).
+  Proof. intros Hb Hl. simpl. repeat split; try lia. intros L HL. specialize (Hl L HL). lia. Qed.
+
+  Theorem run_out_inv_strict chain main glob sizes s : run_prog v Strict lim chain main glob sizes = LOk s -> bufP_strict s.
   Proof.
     intro Hr.
-    pose proof (run_post v Strict lim (fun _ => True) bufP_strict (fun _ => True)) as R.
-    unfold post in R. specialize (fun a b c d e f g h i j k l m n o => R a b c d e f g h i j k l m n o main sizes).
+    pose proof (run_post v Strict lim bsz_strict bufP_strict (fun _ => True)) as R.
+    unfold post in R.
+    specialize (fun a1 a2 a3 a4 a5 a6 a7 a8 a9 a10 a11 a12 a13 a14 a15 a16 a17 a18 a19 a20 a21 a22 a23 a24 a25 a26 a27 a28 a29 =>
+                  R a1 a2 a3 a4 a5 a6 a7 a8 a9 a10 a11 a12 a13 a14 a15 a16 a17 a18 a19 a20 a21 a22 a23 a24 a25 a26 a27 a28 a29 chain main glob sizes).
     rewrite Hr in R. apply R; auto; try discriminate.
+    1-5: (intros; exact Logic.I).
+    - (* freeze *) intros f s0 HI HP. unfold bsz_strict, f_freeze in *. cbn [f_bsz]. destruct (f_bsz f); [exact HI|]. apply bufinv_strict_size. exact HP.
     - intros f _ s0 HP. exact HP.
     - intros t s0 HP. unfold m_write, buf_write. destruct t as [|c t]; [exact HP|].
       unfold bufP_strict in *. destruct (s_buf s0) as [|base size rt]; [exact Logic.I|].
@@ -520,25 +719,27 @@ Section OutStrict.
       + destruct (_ >? _) eqn:E0; simpl; [exact Logic.I|]. rewrite utf8_bytes_rev_append. simpl. repeat split; try lia.
         intros L' HL'. rewrite ?EL in HL'. inversion HL'; subst. simpl in E0. lia.
       + simpl. rewrite utf8_bytes_rev_append. simpl. repeat split; try lia. intros L' HL'. rewrite ?EL in HL'. discriminate.
-    - intros f x val _ s0 HP. pose proof (m_assign_frame v lim f x val s0) as Fr. unfold bufP_strict in *.
-      destruct (m_assign v lim f x val s0) as [s'|e s'|]; simpl; auto; destruct Fr as (-> & _); exact HP.
+    - intros x val s0 HP. pose proof (m_assign_frame v lim x val s0) as Fr. unfold bufP_strict in *.
+      destruct (m_assign v lim x val s0) as [s'|e s'|]; simpl; auto; destruct Fr as (-> & _); exact HP.
     - intros s0 HP. exact Logic.I.
-    - intros s0 HP. unfold bufP_strict in *; simpl. destruct (s_buf s0) as [|base size rt]; simpl.
-      + repeat split; try lia. intros L HL. specialize (Hpos L HL). lia.
-      + destruct HP as (Hs & Hbase & Hl). pose proof (utf8_bytes_nonneg rt). repeat split; try lia.
-        intros L HL. specialize (Hl L HL). lia.
+    - intros s0 HP. unfold bufP_strict; simpl. destruct (bufinv_strict_size _ HP). apply bufinv_strict_fresh; assumption.
+    - intros f s0 HI HP. unfold bufP_strict, sup_buf; simpl. unfold bsz_strict in HI.
+      destruct (f_bsz f); [destruct HI; apply bufinv_strict_fresh; assumption|].
+      destruct (bufinv_strict_size _ HP). apply bufinv_strict_fresh; assumption.
+    - intros s1 s2 HP. unfold leave_blk. destruct (cx_unblk (s_cx s1)); intro Hq; inversion Hq; subst. exact HP.
+    - exact Logic.I.
     - unfold bufP_strict; simpl. repeat split; try lia. intros L HL. specialize (Hpos L HL). lia.
   Qed.
 End OutStrict.
 
 (* ------------------------------------------------------------------ the same, read off a completed render *)
-Corollary run_leaf_bound_ok v md lim L : is_repaired v -> l_loop lim = Some L -> forall main sizes s,
-  (1 <= L)%N -> run_prog v md lim main sizes = LOk s -> leafP L s.
-Proof. intros Hv HL main sizes s H1 Hr. pose proof (run_leaf_bound v md lim L Hv HL main sizes H1) as R. rewrite Hr in R. exact R. Qed.
+Corollary run_leaf_bound_ok v md lim L : is_repaired v -> l_loop lim = Some L -> forall chain main glob sizes s,
+  (1 <= L)%N -> run_prog v md lim chain main glob sizes = LOk s -> leafP L s.
+Proof. intros Hv HL chain main glob sizes s H1 Hr. pose proof (run_leaf_bound v md lim L Hv HL chain main glob sizes H1) as R. rewrite Hr in R. exact R. Qed.
 
-Corollary run_ns_bound_ok v md lim : is_repaired v -> forall main sizes s,
-  run_prog v md lim main sizes = LOk s -> nsP lim s.
-Proof. intros Hv main sizes s Hr. pose proof (run_ns_bound v md lim Hv main sizes) as R. rewrite Hr in R. exact R. Qed.
+Corollary run_ns_bound_ok v md lim : is_repaired v -> forall chain main glob sizes s,
+  run_prog v md lim chain main glob sizes = LOk s -> Forall (ns_ok lim) (s_nslog s).
+Proof. intros Hv chain main glob sizes s Hr. pose proof (run_ns_bound v md lim Hv chain main glob sizes) as R. rewrite Hr in R. exact (proj1 R). Qed.
 
-Corollary run_out_inv_ok v md lim main sizes s : run_prog v md lim main sizes = LOk s -> bufP lim s.
-Proof. intros Hr. pose proof (run_out_inv v md lim main sizes) as R. rewrite Hr in R. exact R. Qed.
+Corollary run_out_inv_ok v md lim chain main glob sizes s : run_prog v md lim chain main glob sizes = LOk s -> bufP lim s.
+Proof. intros Hr. pose proof (run_out_inv v md lim chain main glob sizes) as R. rewrite Hr in R. exact R. Qed.
